@@ -500,7 +500,9 @@ impl RunState {
             // puts
             0x22 => {
                 // could probably rewrite with iterators but idk if worth
-                for addr in self.reg(0).. {
+                for offset in 0..=u16::MAX {
+                    // Wrap at the top of memory, like all other address arithmetic
+                    let addr = self.reg(0).wrapping_add(offset);
                     let chr_raw = self.mem(addr);
                     let chr_ascii = (chr_raw & 0xFF) as u8 as char;
                     if chr_ascii == '\0' {
@@ -519,7 +521,9 @@ impl RunState {
             }
             // putsp
             0x24 => {
-                'string: for addr in self.reg(0).. {
+                'string: for offset in 0..=u16::MAX {
+                    // Wrap at the top of memory, like all other address arithmetic
+                    let addr = self.reg(0).wrapping_add(offset);
                     let chr_raw = self.mem(addr);
                     for chr in [chr_raw >> 8, chr_raw & 0xFF] {
                         let chr_ascii = chr as u8 as char;
